@@ -4,16 +4,13 @@
 import Ctrmml.Proofs.SongChunk
 import Ctrmml.Spec.PlainFragment
 namespace Ctrmml.SongTop
-open Ctrmml Ctrmml.WFold Ctrmml.WTrace Ctrmml.SongSem Ctrmml.SongSplit Ctrmml.Tree Ctrmml.Fragment Tables
+open Ctrmml Ctrmml.Mds Ctrmml.WFold Ctrmml.WTrace Ctrmml.SongSem Ctrmml.SongSplit Ctrmml.Tree Ctrmml.Fragment Tables
 
 theorem simpleEv_of_B {e : Event} (h : simpleEvB e = true) : SimpleEv e := by
   unfold simpleEvB at h
   simp only [Bool.and_eq_true, Bool.or_eq_true, bne_iff_ne, beq_iff_eq, decide_eq_true_eq, ne_eq] at h
-  obtain ⟨⟨⟨h1, h3⟩, h4⟩, h5⟩ := h
-  refine ⟨h1, fun t => ?_, fun t => ?_, fun t => ?_⟩
-  · rcases h3 with h | h
-    · exact absurd t h
-    · exact h
+  obtain ⟨h4, h5⟩ := h
+  refine ⟨fun t => ?_, fun t => ?_⟩
   · rcases h4 with h | h
     · exact absurd t h
     · exact h
@@ -227,5 +224,73 @@ theorem routines_of_B {song : Song} {b : MdsFile.Built} (h : routinesB song b.co
   · have e : (p * 4 + 2 - 2) / 4 = p := by omega
     rw [e] at h'
     exact routine_of_B h'
+
+/-! ### platform commands -/
+
+/-- the converter's platform commands (`pl`) and the timeline's (`pf`) agree: every command the
+converter knows consists of events the theorems cover, and the timeline reads it as those denote -/
+def PlatAgree (pl : List (Int × Option (List MEv))) (pf : Timeline.Platform) : Prop :=
+  ∀ id evs, pl.lookup id = some (some evs) → (∀ ev ∈ evs, platEvB ev = true) ∧ pf.lookup id = some (platSpec evs)
+
+theorem platAgree_of_B {pl : List (Int × Option (List MEv))} {pf : Timeline.Platform} (h : platAgreeB pl pf = true) :
+    PlatAgree pl pf := by
+  intro id evs hl
+  unfold platAgreeB at h
+  simp only [List.all_eq_true] at h
+  have hm : (id, some evs) ∈ pl := Mds.lookup_some_mem _ _ _ hl
+  have := h _ hm
+  simp only [hl, Bool.and_eq_true, List.all_eq_true, beq_iff_eq] at this
+  exact this
+
+theorem platEv_sem (M : Codec.Mode) (nS nM : Nat) (ev : MEv) (h : platEvB ev = true) :
+    Codec.linEv ev = true ∧ M.evOk ev = true ∧
+      mk (Codec.evTicks M nS nM ev) = (platSpec [ev]).map (fun p => Seq.Tk.cmd p.1 p.2) := by
+  obtain ⟨ty, arg⟩ := ev
+  unfold platEvB at h
+  simp only [Bool.or_eq_true, Bool.and_eq_true, beq_iff_eq, bne_iff_ne, ne_eq, decide_eq_true_eq] at h
+  rcases h with ⟨rfl, rfl⟩ | ⟨⟨hop, hflg⟩, harg⟩
+  · refine ⟨by decide, by simp +decide [Codec.Mode.evOk], ?_⟩
+    simp +decide [Codec.evTicks, platSpec, mk, Codec.isCmdOp]
+  · rcases hop with ⟨hb, hnd⟩ | hw
+    · have hb' : ty ∈ byteArgOps := by simpa using hb
+      simp only [byteArgOps, List.mem_cons, List.mem_nil_iff, or_false] at hb'
+      have hfl : ty = mds_FLG → arg % 256 ≥ 128 := by
+        intro t
+        rcases hflg with hh | hh
+        · exact absurd t hh
+        · exact hh
+      rcases hb' with rfl | rfl | rfl | rfl | rfl | rfl | rfl | rfl | rfl | rfl | rfl | rfl | rfl | rfl
+      all_goals first
+        | exact absurd rfl hnd
+        | (refine ⟨by simp +decide [Codec.linEv, Codec.isCmdOp], ?_, ?_⟩
+           · have := hfl
+             simp +decide [Codec.Mode.evOk, Codec.drumSafe] at this ⊢
+             try omega
+           · simp +decide [Codec.evTicks, Codec.cmdArg, Codec.isCmdOp, platSpec, mk, Timeline.maskTk])
+    · have hw' : ty ∈ wordArgOps := by simpa using hw
+      simp only [wordArgOps, List.mem_cons, List.mem_nil_iff, or_false] at hw'
+      have hmod : arg % 65536 = arg := Nat.mod_eq_of_lt harg
+      rcases hw' with rfl | rfl | rfl | rfl
+      all_goals
+        refine ⟨by simp +decide [Codec.linEv, Codec.isCmdOp], by simp +decide [Codec.Mode.evOk], ?_⟩
+        simp +decide [Codec.evTicks, Codec.cmdArg, Codec.isCmdOp, platSpec, mk, Timeline.maskTk, hmod]
+
+theorem platSpec_cons (ev : MEv) (evs : List MEv) : platSpec (ev :: evs) = platSpec [ev] ++ platSpec evs := by
+  simp [platSpec]
+
+theorem platOK_of_agree {pl : List (Int × Option (List MEv))} {pf : Timeline.Platform} (h : PlatAgree pl pf) (nS nM : Nat) :
+    PlatOK nS nM pf pl := by
+  intro id evs hl
+  obtain ⟨hev, hpf⟩ := h id evs hl
+  refine ⟨fun ev he => (platEv_sem Codec.Mode.plain nS nM ev (hev ev he)).1,
+    fun M ev he => (platEv_sem M nS nM ev (hev ev he)).2.1, fun M => ?_⟩
+  rw [hpf]
+  simp only [Option.getD_some]
+  clear hl hpf
+  induction evs with
+  | nil => rfl
+  | cons ev evs ih =>
+    rw [Codec.ticks_cons, mk_append, platSpec_cons, List.map_append,
+      (platEv_sem M nS nM ev (hev ev (by simp))).2.2, ih (fun x hx => hev x (by simp [hx]))]
 
 end Ctrmml.SongTop
